@@ -269,7 +269,13 @@ func (k Keeper) UpdateDispute(
 			result = types.VoteResult_NO_QUORUM_MAJORITY_INVALID
 		}
 	default:
-		return errors.New("no majority")
+		// no option has a strict majority (e.g. equal opposing weights): the dispute is decided as
+		// invalid instead of returning an error, which in BeginBlock would stop the chain
+		if quorum {
+			result = types.VoteResult_INVALID
+		} else {
+			result = types.VoteResult_NO_QUORUM_MAJORITY_INVALID
+		}
 	}
 	vote.VoteResult = result
 	vote.VoteEnd = sdk.UnwrapSDKContext(ctx).BlockTime()
